@@ -148,7 +148,7 @@ func (sc *Scheduler) Schedule(ctx context.Context, g *ExecutionGraph, done chan 
 				setupSucceed := true
 				if err := sc.setupNode(node); err != nil {
 					setupSucceed = false
-					sc.lastError = err
+					sc.setLastError(err)
 					node.setErr(err)
 				}
 				defer func() {
